@@ -370,6 +370,18 @@ Definition c14_mapping_eqb_cross (a b : c14_mapping) : bool :=
   | _ => c14_extents_eqb (c14_ext a) (c14_ext b) && c14_extents_eqb (c14_strides_of a) (c14_strides_of b)
   end.
 
+(* layout_stride::mapping<E>::operator==(a, b) with b of ANOTHER extents type, as the header has it at c59aad0:
+     if (!(a.extents() == b.extents())) return false;              -- extents::operator== compares in common_type (exact)
+     for r: if (a.stride(r) != index_type(b.stride(r))) return false;   -- b's stride is first NARROWED to a's index_type
+   bits/signed describe a's index_type.  (c14_mapping_eqb_cross above is the comparison in the common type, i.e. the
+   behaviour after fixes/C14-9.patch.) *)
+Definition c14_mapping_eqb_cross_w (bits : Z) (signed : bool) (a b : c14_mapping) : bool :=
+  match c14_ext a with
+  | [] => Nat.eqb (length (c14_ext b)) 0
+  | _ => c14_extents_eqb (c14_ext a) (c14_ext b) &&
+         c14_extents_eqb (c14_strides_of a) (map (c14_wrap bits signed) (c14_strides_of b))
+  end.
+
 (* ------------------------------------------------------------------ the Horner loops in index_type arithmetic *)
 (* value = indices[k] + extent(k) * value  with every operation performed in a `bits`-wide (un)signed integer type *)
 Definition c14_horner_step_w (bits : Z) (signed : bool) (v : Z) (ie : Z * Z) : Z :=
